@@ -25,6 +25,7 @@ def gen_cases(rng, tier, ctx):
                        'cfg': dict(data=d, wl=wl, modes=m, macros=None, fnc1=False, eci=None)})
     cs += [c for c in gen.boundary_cases(rng, tier, per_cap=2) ]
     cs += [c for c in gen.constant_cases(rng, tier) if c['cat'] != 'b256-length' or len(c['cfg']['data']) < 300]
+    cs += gen.prefix_cases(rng, tier)
     return cs
 
 
